@@ -6,7 +6,9 @@
 set -u
 name=$1; prop=$2; sd=$3; demo=$4; shift 4; extra="$@"
 S=$(mktemp -d /tmp/seedchk-XXXXXX); out=/verif/seeded/$name; mkdir -p $out
-rsync -a --exclude .git /repo/ $S/t/; mkdir -p $S/t/_seed; cp -r $sd/. $S/t/_seed/ 2>/dev/null
+if [ -n "${SEED_SCRATCH:-}" ]; then mkdir -p $S/t; git -C /repo archive HEAD | tar -x -C $S/t      # the committed tree: /repo's working tree may hold a seed patch of a concurrent reseed run
+else rsync -a --exclude .git /repo/ $S/t/; fi
+mkdir -p $S/t/_seed; cp -r $sd/. $S/t/_seed/ 2>/dev/null
 cd $S/t
 ( make clean >/dev/null 2>&1; make >/dev/null 2>&1 ) || { echo "original does not build"; }
 bash -c "$demo" > $S/demo_orig.log 2>&1; d0=$?
